@@ -25,7 +25,7 @@
 size_t g_mc_idx;
 void *memcpy(void *dst, const void *src, size_t n)
 __CPROVER_requires(__CPROVER_r_ok(src, n) && __CPROVER_w_ok(dst, n))
-__CPROVER_assigns(__CPROVER_object_upto(dst, n))
+__CPROVER_assigns(__CPROVER_object_from(dst))
 __CPROVER_ensures(__CPROVER_return_value == dst)
 __CPROVER_ensures(g_mc_idx < n ==> ((unsigned char*)dst)[g_mc_idx] == ((const unsigned char*)src)[g_mc_idx])
 ;
